@@ -382,12 +382,29 @@ def walk_decision(f, start, atom_of, assignment, stop, on_block=None, max_steps=
     successors that is not a recognised decision aborts with CheckerError."""
     bb = start
     visited = []
+    flags = f.flag_locals()
+    fval = {}
+    # drop flags have a definite value on the way to `start` only if it is the same on every
+    # path; take it from the block-entry dataflow
+    st0 = f.flag_states()[start] or {}
+    for l, vs in st0.items():
+        if len(vs) == 1:
+            fval[l] = next(iter(vs))
     for _ in range(max_steps):
         visited.append(bb)
         if on_block:
             on_block(bb)
         if bb in stop:
             return bb, visited
+        for s in f.stmts(bb):
+            if s["s"] == "assign" and not s["lhs"]["p"] and s["lhs"]["l"] in flags and s["rhs"]["rv"] == "use":
+                fval[s["lhs"]["l"]] = op_const(s["rhs"]["op"])
+        t = f.term(bb)
+        if t["t"] == "switch" and op_local(t["discr"]) in flags and op_local(t["discr"]) in fval:
+            v = fval[op_local(t["discr"])]
+            tg = dict((bool(x), b) for x, b in t["targets"])
+            bb = tg.get(v, t["otherwise"])
+            continue
         a = atom_of(bb)
         if a is not None:
             name, edges = a
